@@ -186,6 +186,11 @@ func c11Exec(c *Ctx, cs c11Case) string {
 	// own the working-directory history: a relative location has already been normalised elsewhere
 	prime := spec.Schema{}
 	_ = spec.ExpandSchemaWithBasePath(&prime, nil, &spec.ExpandOptions{RelativeBase: "prime.json", PathLoader: func(string) (json.RawMessage, error) { return json.RawMessage(`{}`), nil }})
+	// ... and a call that names no location at all has already been made from here
+	prime2 := spec.Schema{}
+	_ = spec.ExpandSchema(&prime2, nil, nil)
+	prime3 := spec.MustCreateRef("#/definitions/none")
+	_, _ = spec.ResolveRef(map[string]interface{}{}, &prime3)
 	ref := c11Call(b, cs.Fn, canonical, cs.Skip)
 	os.Chdir(wd)
 	loc := strings.ReplaceAll(cs.Spelling, "<S>", S)
